@@ -282,6 +282,26 @@ CHECKS["C07"] = dict(
          "paths. One known finding (taper + negative extension).",
     design="4 C07")
 
+CHECKS["C08"] = dict(
+    level="model_checking",
+    technique="TLA+ spec Paths.tla (RobustPath section-list state machine on a x3 integer lattice, "
+              "exact interpolation values, continuity and clearance bounds); TLC-enumerated "
+              "histories replayed on gdstk::RobustPath; exact state and quantised measurements "
+              "validated by TLC",
+    text="[S] exact: end point after every section, one width/offset interpolation entry per "
+         "section and element, end widths/offsets, width and offset queries at u = k, k+1/2, k+1 "
+         "for constant / linear / smooth interpolations, end points of command strings. [M] "
+         "measured: adjacent sections meet (position from below = from above), smooth "
+         "continuations / turn stay tangent and sections start at the end point also when appended "
+         "after rotate / translate / scale / mirror, hangs are events, and every sample point "
+         "surely within (beyond) half the width of the exact centre curve by more than 3 tolerances "
+         "is (is not) covered by the outline. The transform algebra (trafo, width_scale, "
+         "offset_scale) is checked under C10; PATH-record equivalence of simple paths under C01.",
+    note="Trusted: TLC, Paths.tla, the harness's centre-curve sampling and point-in-outline test. "
+         "User-function interpolations and end caps other than flush/round are not in the clearance "
+         "check; warning codes (IntersectionNotFound) are accepted.",
+    design="4 C08")
+
 NOT_YET = {}
 
 
